@@ -498,26 +498,36 @@ Fixpoint ok_converge (cur : aset) (fl : list cflags) (g : list (list aset)) : bo
   | _, _ => true
   end.
 
+(* the stream side of the script: lists produced so far, endpoint set, stream dead *)
+Definition ok_env (o : okst) (a : action) : list aset * aset * bool :=
+  match a with
+  | ASet x => (o_hist o ++ [x], o_eps o, o_dead o)
+  | AClose => (o_hist o, o_eps o, true)
+  | APut x => let '(e, ch) := apply_events [Put x] (o_eps o) false in
+              (if ch then o_hist o ++ [e] else o_hist o, e, o_dead o)
+  | ADel x => let '(e, ch) := apply_events [Del x] (o_eps o) false in
+              (if ch then o_hist o ++ [e] else o_hist o, e, o_dead o)
+  | ABatch evs => let '(e, ch) := apply_events evs (o_eps o) false in
+              (if ch then o_hist o ++ [e] else o_hist o, e, o_dead o)
+  | _ => (o_hist o, o_eps o, o_dead o)
+  end.
+Definition ok_hist (o : okst) (a : action) : list aset := fst (fst (ok_env o a)).
+Definition ok_dead (o : okst) (a : action) : bool := snd (ok_env o a).
+Definition ok_cur (hist : list aset) : aset := match last_of hist with Some x => x | None => [] end.
+(* clause "latest" of a slot: updated subscriber flags and verdict *)
+Definition ok_lat (o : okst) (sl : slot) : list cflags * bool :=
+  ok_latest (ok_hist o (act sl)) (ok_flags_step (act sl) (o_flags o)) (got sl).
+(* clause "converge" of a slot *)
+Definition ok_conv (o : okst) (sl : slot) : bool :=
+  match act sl with
+  | AWait => ok_dead o (act sl) || ok_converge (ok_cur (ok_hist o (act sl))) (fst (ok_lat o sl)) (got sl)
+  | _ => true
+  end.
 Definition ok_step (o : okst) (sl : slot) : okst :=
   let a := act sl in
-  let fl1 := ok_flags_step a (o_flags o) in
-  let '(hist, eps, dead) :=
-    match a with
-    | ASet x => (o_hist o ++ [x], o_eps o, o_dead o)
-    | AClose => (o_hist o, o_eps o, true)
-    | APut x => let '(e, ch) := apply_events [Put x] (o_eps o) false in
-                (if ch then o_hist o ++ [e] else o_hist o, e, o_dead o)
-    | ADel x => let '(e, ch) := apply_events [Del x] (o_eps o) false in
-                (if ch then o_hist o ++ [e] else o_hist o, e, o_dead o)
-    | ABatch evs => let '(e, ch) := apply_events evs (o_eps o) false in
-                (if ch then o_hist o ++ [e] else o_hist o, e, o_dead o)
-    | _ => (o_hist o, o_eps o, o_dead o)
-    end in
   let calls := match a with AUnsub i | ACancelUnsub i => o_calls o ++ [i] | _ => o_calls o end in
-  let '(fl2, b1) := ok_latest hist fl1 (got sl) in
-  let cur := match last_of hist with Some x => x | None => [] end in
-  let b2 := match a with AWait => dead || ok_converge cur fl2 (got sl) | _ => true end in
-  mkOk fl2 hist eps dead calls (o_good o && b1 && b2).
+  mkOk (fst (ok_lat o sl)) (ok_hist o a) (snd (fst (ok_env o a))) (ok_dead o a) calls
+       (o_good o && snd (ok_lat o sl) && ok_conv o sl).
 
 Definition ok (c : case) : bool :=
   let e0 := if etcd c then last_item (stream_start c) [] else [] in
